@@ -605,6 +605,68 @@ META = {
                   needs='the limit expiring while the result is pickled to the on-disk cache; a later call reads the '
                         'truncated file',
                   strengthened=None),
+    # ---- eighth round ----
+    'C03-h': dict(breaks='C03', file='adsg_core/optimization/assign_enc/lazy_encoding.py (LazyImputer.impute cache key)',
+                  change='the imputation cache is keyed on (vector, source / target existence masks) instead of the whole '
+                         'existence pattern, so patterns that differ only in a degree override share entries',
+                  needs='a grouping connector that always exists with conditionally existing members (same connectors, '
+                        'other aggregated degree per scenario), a lazy non-pattern encoder, and a sub-vector that needs '
+                        'imputation decoded under two scenarios on one processor',
+                  strengthened='generator class "group conditional" in the decode family (first member permanent, the '
+                               'others below the options of a selection choice)'),
+    'C04-h': dict(breaks='C04', file='adsg_core/optimization/hierarchy/complete.py (_find_correct_opt_idx distance)',
+                  change='forced choices are only left out of the nearest-combination distance when the caller did not '
+                         'supply them (it always does)',
+                  needs='a merged scenario with a forced choice at a non-zero index and an inactive non-forced choice in '
+                        'the same combination (shared option node plus feedback incompatibility)',
+                  strengthened=None),
+    'C05-h': dict(breaks='C05', file='adsg_core/optimization/hierarchy/fast.py (FastHierarchyAnalyzer.get_graph)',
+                  change='the imputation-cache lookup runs before the "already known infeasible" test',
+                  needs='fast encoder, two neighbouring infeasible combinations with different nearest feasible '
+                        'neighbours, decoded in a particular order on one processor',
+                  strengthened=None),
+    'C07-h': dict(breaks='C07 (at assignment-manager level: C10)', file='adsg_core/optimization/assign_enc/lazy/imputation/first.py (LazyFirstImputer memo key)',
+                  change='the memo of the first valid vector no longer includes the existence pattern',
+                  needs='LazyFirstImputer (registered, never the selector default), two existence patterns with '
+                        'different first valid vectors, imputation under one and then the other on one manager',
+                  strengthened='forced-encoder mode of C07/C03 now also rotates the registered imputers (half of the '
+                               'forced cases): C07 catches it in the thorough tier (2 cases, seed 0), not in the quick '
+                               'tier; C10 (every imputer at manager level) catches it in the quick tier'),
+    'C09-h': dict(breaks='C09 (counting)', file='adsg_core/optimization/assign_enc/matrix.py (_count_matrices_special)',
+                  change='the single-source shortcut fires for any number of connections (>= 1 instead of == 1)',
+                  needs='exactly one source (or target) taking two or more connections, counted from a cold cache',
+                  strengthened=None),
+    'C11-h': dict(breaks='C11', file='adsg_core/graph/adsg_nodes.py (ConnectionChoiceNode.get_conn_node_derivations)',
+                  change='dict.fromkeys(nodes, []): all connectors share one member list',
+                  needs='a connection choice with two or more grouping connectors', strengthened=None),
+    'C12-h': dict(breaks='C12', file='adsg_core/optimization/assign_enc/selector.py (EncoderSelector._get_matrix_gen)',
+                  change='the matrix generator is memoised on the selector; initialize_numba swaps the settings for a '
+                         'dummy problem and the dummy generator survives the restore',
+                  needs='the first selection of a process, a cold selection cache, and settings with 0 or 1 connection '
+                        'sets of a shape a pattern encoder accepts',
+                  strengthened='the first-selection probe of C12 rotates over three settings (choose 2 of 5, one '
+                               'connection set, no connection set) and checks the returned coding; KF-PATTERN-ENC no '
+                               'longer matches "variables declared for at most one connection set"'),
+    'C15-h': dict(breaks='C15', file='adsg_core/func_cache.py (cached_function key)',
+                  change='the persistent cache key contains the keyword names but not their values',
+                  needs='a fixed variable and the with_fixed=True and with_fixed=False variant of one cached query in '
+                        'the same fix epoch, passed by keyword',
+                  strengthened='C15 "both views" law: while fixed, with_fixed=False count / declared size / enumeration '
+                               'equal the original problem, asked before or after the restricted ones (alternating); '
+                               'this also surfaced FX-40'),
+    'C16-h': dict(breaks='C16', file='adsg_core/optimization/graph_processor.py (_get_all_des_var_values)',
+                  change='fixed values are inserted into the vector in the order they were fixed',
+                  needs='two variables fixed in descending position order',
+                  strengthened='C16 fixes one or two selection variables in random order before the first decode; C15 '
+                               '(two fixes in both orders) caught it from the start'),
+    'C17-h': dict(breaks='C17', file='adsg_core/graph/adsg.py (DSG.metric_nodes)',
+                  change='metric nodes are collected in a dict keyed by name',
+                  needs='two metric nodes with the same name (told apart by idx) present in one architecture',
+                  strengthened='C17 gives a third of the cases same-named metrics with idx (builder passes label/idx)'),
+    'C20-h': dict(breaks='C20', file='adsg_core/graph/adsg.py (DSG.get_for_apply_selection_choice)',
+                  change='applying a choice that is not currently active is silently skipped',
+                  needs='a nested supplementary choice whose mapping is registered before its parent\'s',
+                  strengthened=None),
 }
 
 
@@ -628,6 +690,11 @@ def main():
             out['checks'] = json.load(open(os.path.join(d, 'caught.json')))
         except Exception:  # noqa
             out['checks'] = None
+        try:   # results of runs outside the quick matrix (e.g. thorough tier), recorded by hand
+            extra = json.load(open(os.path.join(d, 'caught_extra.json')))
+            out['checks'] = dict(out['checks'] or {}, **extra)
+        except Exception:  # noqa
+            pass
         out['check_strengthened_because_of_it'] = m['strengthened']
         with open(os.path.join(d, 'meta.json'), 'w') as fp:
             json.dump(out, fp, indent=1)
